@@ -6,6 +6,7 @@ mod duo;
 mod gen;
 mod peer;
 mod refcodec;
+mod refscram;
 mod rframe;
 mod simnet;
 mod spec;
